@@ -284,3 +284,51 @@ def loop_as_function(fi, loop, results, name=None):
     ast.fix_missing_locations(fn)
     out = FuncInfo(fi.module, fi.qual + '#loop%d' % loop.lineno, fn, cls=fi.cls)
     return out, params
+
+
+def block_as_function(fi, stmts, results, name='block'):
+    """A FuncInfo whose body is the statement list `stmts` (taken from fi): parameters are the names read before being
+    assigned, it returns the tuple of `results`."""
+    import copy
+    from ..core.db import FuncInfo
+    body = copy.deepcopy(list(stmts))
+    exposed, _ = upward_exposed(stmts, frozenset())
+    mod = fi.module
+    global_names = set(getattr(mod, 'functions', {})) | set(getattr(mod, 'imports', {})) | set(getattr(mod, 'classes', {})) | set(getattr(mod, 'assigns', {}))
+    local_assigned = {n.id for n in ast.walk(fi.node) if isinstance(n, ast.Name) and isinstance(n.ctx, ast.Store)} | set(fi.params)
+    params = sorted(((exposed & local_assigned) | set(results)) - set(dir(__import__('builtins'))) - (global_names - local_assigned))
+    body.append(ast.Return(value=ast.Tuple(elts=[ast.Name(id=r, ctx=ast.Load()) for r in results], ctx=ast.Load())))
+    fn = ast.FunctionDef(name='%s__%s' % (fi.name, name), args=ast.arguments(posonlyargs=[], args=[ast.arg(arg=p) for p in params], vararg=None, kwonlyargs=[], kw_defaults=[], kwarg=None, defaults=[]),
+                         body=body, decorator_list=[], returns=None, type_comment=None)
+    ast.copy_location(fn, stmts[0])
+    ast.fix_missing_locations(fn)
+    return FuncInfo(fi.module, '%s#%s' % (fi.qual, name), fn, cls=fi.cls), params
+
+
+def every_pass_executes(stmts, pred, passed=False):
+    """Does every path through one pass of a loop body (to its end or to a `continue`) execute a statement satisfying
+    pred?  Returns (ok, passed_at_end); `break`/`return`/`raise` paths leave the loop and are not constrained."""
+    ok = True
+    for st in stmts:
+        if pred(st):
+            passed = True
+        elif isinstance(st, ast.Continue):
+            return (ok and passed), passed
+        elif isinstance(st, (ast.Break, ast.Return, ast.Raise)):
+            return ok, True
+        elif isinstance(st, ast.If):
+            o1, p1 = every_pass_executes(st.body, pred, passed)
+            o2, p2 = every_pass_executes(st.orelse, pred, passed)
+            ok = ok and o1 and o2
+            passed = p1 and p2
+        elif isinstance(st, (ast.With,)):
+            o1, passed = every_pass_executes(st.body, pred, passed)
+            ok = ok and o1
+        elif isinstance(st, ast.Try):
+            o1, p1 = every_pass_executes(st.body, pred, passed)
+            ok = ok and o1
+            for h in st.handlers:
+                o2, _ = every_pass_executes(h.body, pred, passed)
+                ok = ok and o2
+            passed = passed     # a handler may have skipped the body
+    return ok, passed
